@@ -194,6 +194,7 @@ type expectation struct {
 	flts      []float64
 	str       *string
 	fstr      *float64 // string target from a float: must parse back to this float
+	exactv    *big.Int // string target, text routes: a numeral whose exact value is this integer
 	b         *bool
 	real      *big.Float // Duration from float seconds: exact real nanoseconds
 	realTol   bool       // accept |stored-real| < 1ns
@@ -501,6 +502,9 @@ func (e *expectation) describe() string {
 	if e.str != nil {
 		alts = append(alts, strconv.Quote(*e.str))
 	}
+	if e.exactv != nil {
+		alts = append(alts, "a numeral of exactly "+e.exactv.String())
+	}
 	if e.fstr != nil {
 		alts = append(alts, fmt.Sprintf("a string that parses back to %v", *e.fstr))
 	}
@@ -531,8 +535,13 @@ func (e *expectation) matches(t *tkind, got reflect.Value) bool {
 	case cBool:
 		return e.b != nil && got.Bool() == *e.b
 	case cString:
-		if e.str != nil {
-			return got.String() == *e.str
+		if e.str != nil && got.String() == *e.str {
+			return true
+		}
+		if e.exactv != nil {
+			if v, ok := exactValue(got.String()); ok && v.IsInt() && v.Num().Cmp(e.exactv) == 0 {
+				return true
+			}
 		}
 		if e.fstr != nil {
 			f, err := strconv.ParseFloat(got.String(), 64)
@@ -588,6 +597,25 @@ func (e *expectation) deviation(t *tkind, got reflect.Value) string {
 			d := new(big.Int).Sub(v, g)
 			if d.Sign() != 0 && new(big.Int).Mod(d, mod).Sign() == 0 {
 				return "wraps"
+			}
+		}
+		for _, v := range e.ints {
+			// the integer went through a float64 on its way (53 bits survive)
+			if v.Cmp(g) != 0 && truncBig(nearestFloat(v)).Cmp(g) == 0 {
+				return "rounded-to-float64"
+			}
+		}
+		return "wrong-value"
+	case cString:
+		if e.exactv != nil {
+			if v, ok := exactValue(got.String()); ok && v.IsInt() {
+				d := new(big.Int).Sub(v.Num(), e.exactv)
+				if d.Sign() != 0 && new(big.Int).Mod(d, pow2(64)).Sign() == 0 {
+					return "wraps"
+				}
+			}
+			if f, err := strconv.ParseFloat(got.String(), 64); err == nil && f == nearestFloat(e.exactv) {
+				return "rounded-to-float64"
 			}
 		}
 		return "wrong-value"
